@@ -135,6 +135,9 @@ fn scenario(cfg: &RunCfg, saturate: bool) -> Outcome {
     };
     eng.weights.extra = 3;
     eng.weights.job_finish = *[1u32, 4, 12].get(gen::below(3) as usize).unwrap();
+    // virtual time may pass at any step (not only when everything is idle): a handler can
+    // still be running, or a response still be on its way, long after the revocation
+    eng.weights.early_timer_64 = gen::pick(&[0u32, 0, 4]);
     // Clients: they never close by themselves (the property says shutdown must work
     // "even when the connection limit is reached").
     let nclients = if saturate { max_conns + gen::below(2) as usize } else { gen::below(max_conns as u32 + 2) as usize };
